@@ -52,14 +52,14 @@ func shapes() []gen.ArmMember {
 
 // column value classes for the independent-column product (scenario header-columns)
 var (
-	cpTS   = []string{"", "0", "7", maxTS}
+	cpTS   = []string{"", "0", "7", "000000000010", maxTS}
 	cpUID  = []string{"", "0", "1000", maxID}
 	cpGID  = []string{"", "0", "100", maxID}
 	cpMode = []string{"", "644", "100644", "00100644"}
 )
 
 func cpNames(more bool) []string {
-	n := []string{"a", "debian-binary", "0123456789abcdef", "0123456789abcde/", "x/", "a b/"}
+	n := []string{"a", "debian-binary", "0123456789abcdef", "0123456789abcde/", "x/", "a b/", "a/b"}
 	if more {
 		n = append(n, "a b", "e.tar.gz")
 	}
